@@ -14,7 +14,10 @@
         or on the subintent, next to an honest signer
      C  notary signature: over the signed-intent hash / the intent hash / a stale signed hash / garbage,
         by the notary key / another key of the same curve / a key of the other curve
-     D  count limits (synthetic configuration maxSigs = 2, maxTotalSigs = 4)                    *)
+     D  count limits (synthetic configuration maxSigs = 2, maxTotalSigs = 4)
+     E  degenerate Ed25519 keys (both tiers, complete): each of the 8 small-order points as public key with the
+        key-less "signature" (R = the same point / the neutral element, s = 0) as intent signer (alone, before / after an
+        honest signer), as subintent signer, and as notary (with its key in the header), V1 and V2           *)
 EXTENDS TxSigs, Json
 CONSTANT Tier
 VARIABLE c
@@ -64,7 +67,19 @@ FamilyD ==
   \cup {[tx |-> Mk(2, <<[p \in 1..n |-> Own(p, 2)], [p \in 1..m |-> Own(p, 2)]>>, 4, FALSE, 4, "signed"), cfg |-> SmallCfg] :
         n \in 0..3, m \in 0..3}
 
-Cases == FamilyA \cup FamilyB \cup FamilyC \cup FamilyD
+DegKeys == {10 + 2 * t : t \in 0..7}
+Forged(n) == {S(k, ov, 0, n) : k \in DegKeys, ov \in {"forgedSame", "forgedId"}}
+FamilyE ==
+  {[tx |-> Mk(1, <<r>>, 4, FALSE, 4, "signed"), cfg |-> Cfg(TRUE)] :
+       r \in UNION {{<<d>>, <<Own(3, 1), d>>, <<d, Own(2, 1)>>} : d \in Forged(1)}}
+  \cup {[tx |-> Mk(2, <<r, s>>, 4, FALSE, 4, "signed"), cfg |-> Cfg(TRUE)] :
+       r \in {<<>>, <<Own(3, 2)>>}, s \in UNION {{<<d>>, <<Own(1, 2), d>>} : d \in Forged(2)}}
+  \cup {[tx |-> Mk(2, <<<<d>>, <<Own(2, 2)>>>>, 4, FALSE, 4, "signed"), cfg |-> Cfg(TRUE)] : d \in Forged(2)}
+  \cup UNION {{[tx |-> Mk(ver, IF ver = 1 THEN <<r>> ELSE <<r, <<Own(2, 2)>>>>, k, sg, k, ov), cfg |-> Cfg(TRUE)] :
+                 r \in {<<>>, <<Own(3, IF ver = 1 THEN 1 ELSE 2)>>}, k \in DegKeys, sg \in BOOLEAN, ov \in {"forgedSame", "forgedId"}}
+              : ver \in 1..2}
+
+Cases == FamilyA \cup FamilyB \cup FamilyC \cup FamilyD \cup FamilyE
 
 Init == c \in Cases
 Next == UNCHANGED c
